@@ -191,6 +191,45 @@ def run(run):
                 run.property_failure(classify_exc(fn, o), "%r on page %r raised %r" % (t, title, o), {"title": title, "texts": [t]})
             elif not isinstance(o[1], str):
                 run.property_failure("pf-nonstr:%s" % fn, "%r returned %r" % (t, o[1]), {"title": title, "texts": [t]})
+    # ---- (c2) the namespace magic words over every namespace of every shipped language edition
+    import json as _json
+    data = lib.REPO / "src/wikitextprocessor/data"
+    langs = sorted(p_.name for p_ in data.iterdir() if (p_ / "namespaces.json").exists())
+    if quick:
+        langs = [l for l in langs if l in ("en", "de", "fr", "fi", "zh", "ru", "es", "ja")] + rng.sample(langs, 25)
+    njobs, nmeta = [], []
+    for lg in sorted(set(langs)):
+        try:
+            nsd = _json.loads((data / lg / "namespaces.json").read_text())
+        except Exception:  # noqa
+            continue
+        names = sorted({v.get("name", "") for v in nsd.values()} | set(nsd.keys()))
+        texts, titles = [], []
+        for nm in names:
+            pre = (nm + ":") if nm else ""
+            for w in ("TALKSPACE", "TALKPAGENAME", "SUBJECTSPACE", "SUBJECTPAGENAME", "NAMESPACE", "NAMESPACENUMBER", "FULLPAGENAME",
+                      "TALKSPACEE", "NAMESPACEE"):
+                texts.append("{{%s:%sFoo}}" % (w, pre))
+            texts.append("{{ns:%s}}" % nm)
+        njobs.append({"lang": lg, "texts": texts, "_timeout": 120})
+        nmeta.append(lg)
+        # the same words without argument on a page of each namespace
+        for nm in names[:40]:
+            njobs.append({"lang": lg, "title": ((nm + ":") if nm else "") + "Foo/bar",
+                          "texts": ["{{TALKSPACE}}|{{TALKPAGENAME}}|{{SUBJECTSPACE}}|{{SUBJECTPAGENAME}}|{{NAMESPACE}}|{{NAMESPACENUMBER}}|{{BASEPAGENAME}}"],
+                          "_timeout": 60})
+            nmeta.append(lg)
+    nres = lib.run_impl("expand_many", njobs, shards=lib.NCPU)
+    for lg, job, r in zip(nmeta, njobs, nres):
+        if r.get("outcome") != "ok":
+            run.property_failure("pf-batch:%s" % r.get("outcome"), "namespace batch for %s did not finish: %r" % (lg, r), {"lang": lg, "texts": job["texts"][:3]})
+            continue
+        for t, o in zip(job["texts"], r["outs"]):
+            run.count(["ns-words", lg, job.get("title"), t], True, "ns-words")
+            if o[0] != "ok":
+                fn = t.split(":")[0].strip("{}|").split("}")[0]
+                run.property_failure(classify_exc(fn, o), "%r (language %s, page %r) raised %r" % (t, lg, job.get("title", "Tt"), o),
+                                     {"lang": lg, "title": job.get("title", "Tt"), "texts": [t]})
     # ---- (d) ladders
     ladders = []
     for depth in (1, 10, 50, 99, 100, 101, 150):
